@@ -662,6 +662,16 @@ class Mir:
             if m:
                 f, l1, c1, l2, c2 = m.group(1), int(m.group(2)), int(m.group(3)), int(m.group(4)), int(m.group(5))
                 tr, ty = self.impl_info(f, l1, c1, l2, c2)
+                if tr is not None and tr.startswith("@"):
+                    # derive-generated impl: the span names the macro, the receiver type is in the signature
+                    mh = re.search(r"\(_1: (&(?:mut )?)?([^,()]+?)(?:,|\))", b.header)
+                    if mh:
+                        try:
+                            t1 = _type_last(mh.group(2))
+                        except ValueError:
+                            t1 = None
+                        if t1 and t1[0].isupper():
+                            ty = t1
                 rest = name[m.end():]
                 if rest.startswith("::"):
                     rest = rest[2:]
